@@ -17,9 +17,13 @@ func NewReconcilerForVerif(transactions transactionstore.Store, proposals propos
 	return &Reconciler{transactions: transactions, proposals: proposals}
 }
 
-// NewWatcherForVerif builds the transaction store watcher
-func NewWatcherForVerif(transactions transactionstore.Store) *Watcher {
-	return &Watcher{transactions: transactions}
+// NewWatcherForVerif builds the transaction store watcher (with the proposal store it also wakes the successors)
+func NewWatcherForVerif(transactions transactionstore.Store, proposals ...proposalstore.Store) *Watcher {
+	w := &Watcher{transactions: transactions}
+	if len(proposals) > 0 {
+		w.proposals = proposals[0]
+	}
+	return w
 }
 
 // NewProposalWatcherForVerif builds the proposal store watcher of the transaction controller
